@@ -1,4 +1,5 @@
 import DendroModel.Basic.Tree
+import DendroModel.Gen.UltraPrec
 /-! C17 — node ages, the ultrametricity check, root distances, lineage counting and the tree
 statistics of `calculate/treemeasure.py`, as the code computes them, next to their textbook
 definitions.  Mathlib-free and executable (the driver `drv_c17` runs exactly these definitions).
@@ -25,6 +26,11 @@ def Err.render : Err → String
   | .value => "ValueError"
   | .zerodiv => "ZeroDivisionError"
   | .nonbinary => "NotBinary"
+
+/-- `constants.DEFAULT_ULTRAMETRICITY_PRECISION` and the default `prec` of `pybus_harvey_gamma`, regenerated from
+    the source on every run (`Gen/UltraPrec.lean`) -/
+def defaultPrec : Frac := Frac.mk' UltraPrec.calcNum UltraPrec.calcDen
+def gammaDefaultPrec : Frac := Frac.mk' UltraPrec.gammaNum UltraPrec.gammaDen
 
 /-- `None` edge length read as 0 (what `calc_node_ages` and `Tree.length` do) -/
 def olen : Option Frac → Frac
